@@ -33,6 +33,7 @@ class Likelihood:
         self.shared = shared_counter
         self.keep_log = True
         self.pointwise = pointwise   # vec mode evaluates row by row (bitwise the scalar function)
+        self.keep_dtypes = set()     # dtypes of the points this likelihood was handed (in this process)
         self.ro_buffer = False       # vec mode: evaluate into one preallocated buffer and return a READ-ONLY view of it
         self._buf = None             # (a caller that owns its output memory and reuses it on the next call)
 
@@ -45,6 +46,7 @@ class Likelihood:
         d["by_id"] = {}
         d["order"] = []
         d["_buf"] = None
+        d["keep_dtypes"] = set()
         return d
 
     def __setstate__(self, d):
@@ -69,6 +71,8 @@ class Likelihood:
                 return [v + add for v in base]
             return base + add
         x = np.asarray(x)
+        if self.keep_dtypes is not None:
+            self.keep_dtypes.add(str(x.dtype))
         # the likelihood itself always computes in double precision, whatever dtype the prior transform hands over
         xc = x if x.dtype == np.float64 else x.astype(np.float64)
         if self.mode == "vec":
